@@ -149,19 +149,38 @@ function envs(names, thorough) {
 const dataOf = (env) => ({ a: POOL[env[0]], b: POOL[env[1]], c: POOL[env[2]] })
 const envText = (env, names) => ['a', 'b', 'c'].filter((n) => names.has(n)).map((n, _) => n + '=' + POOL_NAMES[env['abc'.indexOf(n)]]).join(' ')
 
-/** first failing environment of (evaluator, reference), or null */
-function firstFailure(ev, ref, names, thorough, reducedEnvs) {
+const kindOf = (exp, got) => (exp.err ? 'javascript-throws-' + exp.err : got.err ? 'generated-code-throws-' + got.err : 'different-value')
+
+/**
+ * First failing environment of (evaluator, reference) per failure kind (so that a known deviation,
+ * e.g. the lenient array spread, cannot hide a different one on the same expression).
+ * `onlyKind`: stop at the first failure of that kind.
+ */
+function failures(ev, ref, names, thorough, reducedEnvs, onlyKind) {
   let list = envs(names, thorough)
   if (reducedEnvs) list = list.filter((e) => C_VALUES_QUICK.includes(e[0]) && C_VALUES_QUICK.includes(e[1]))
   let n = 0
+  const byKind = new Map()
   for (const env of list) {
     const data = dataOf(env)
-    const exp = outcomeOf(() => ref(data))
+    const flags = {}
+    const exp = outcomeOf(() => ref(data, flags))
     const got = ev.eval(data)
     n++
-    if (!sameOutcome(exp, got)) return { env, exp, got, n }
+    if (!sameOutcome(exp, got)) {
+      // the recorded deviation: spreading a value that is not an array (generated as [].concat)
+      const kind = flags.nonArraySpread ? 'lenient-array-spread' : kindOf(exp, got)
+      if (onlyKind && kind !== onlyKind) continue
+      if (!byKind.has(kind)) byKind.set(kind, { env, exp, got, kind })
+      if (onlyKind) break
+    }
   }
-  return { n }
+  return { n, byKind }
+}
+function firstFailure(ev, ref, names, thorough, reducedEnvs, onlyKind) {
+  const r = failures(ev, ref, names, thorough, reducedEnvs, onlyKind)
+  const f = [...r.byKind.values()][0]
+  return f ? Object.assign({ n: r.n }, f) : { n: r.n }
 }
 
 // shrinking: smaller trees that still fail (same reference-vs-generated disagreement)
@@ -235,7 +254,7 @@ function canonicalNames(e) {
   return ren(e)
 }
 
-function shrink(e, thorough) {
+function shrink(e, thorough, kind) {
   let cur = e
   for (let round = 0; round < 12; round++) {
     const cands = candidates(cur).filter((c) => M.printFull(c).length < M.printFull(cur).length)
@@ -245,7 +264,7 @@ function shrink(e, thorough) {
     let next = null
     for (let i = 0; i < cands.length; i++) {
       if (!evs[i].eval) continue
-      const f = firstFailure(evs[i], M.compileRef(cands[i]), M.freeNames(cands[i]), thorough, false)
+      const f = firstFailure(evs[i], M.compileRef(cands[i]), M.freeNames(cands[i]), thorough, false, kind)
       if (f.env) { next = cands[i]; break }
     }
     if (!next) break
@@ -253,7 +272,7 @@ function shrink(e, thorough) {
   }
   cur = canonicalNames(cur)
   const ev = compileTexts([M.printMin(cur)])[0]
-  const f = ev.eval ? firstFailure(ev, M.compileRef(cur), M.freeNames(cur), thorough, false) : {}
+  const f = ev.eval ? firstFailure(ev, M.compileRef(cur), M.freeNames(cur), thorough, false, kind) : {}
   return { e: cur, f }
 }
 
@@ -305,14 +324,18 @@ function runShard(info, thorough) {
           continue
         }
         rep.states += 1
-        const f = firstFailure(ev, ref, names, thorough, v > 0)
-        rep.evaluations += f.n
+        const fr = failures(ev, ref, names, thorough, v > 0)
+        rep.evaluations += fr.n
         if (names.size > 0) rep.nontrivialCase(text)
-        rep.outcome([f.env ? 'fail' : 'ok', e.k, e.op || '', names.size])
-        if (si % 997 === 0 && v === 0) rep.sample({ expression: text, reference: M.printRef(e), environments: f.n })
-        if (f.env) {
+        rep.outcome([fr.byKind.size ? 'fail' : 'ok', e.k, e.op || '', names.size])
+        if (si % 997 === 0 && v === 0) rep.sample({ expression: text, reference: M.printRef(e), environments: fr.n })
+        for (const f of fr.byKind.values()) {
           if (v === 0) minimalFailed = true
-          const s = shrink(e, thorough)
+          if (f.kind === 'lenient-array-spread') {
+            rep.violation('C03|lenient-array-spread', `array spread of a value that is not an array: {{ ${text} }} with ${envText(f.env, names)} gives ${showOutcome(f.got)}, JavaScript gives ${showOutcome(f.exp)}`, { engine: 'c03', expr: text, tree: e, env: f.env, original: text })
+            continue
+          }
+          const s = shrink(e, thorough, f.kind)
           const se = s.f && s.f.env ? s : { e, f }
           const sn = M.freeNames(se.e)
           const fp = `C03|${v === 0 ? '' : ['', 'fully-parenthesised:', 'with-comments:'][v]}${M.printMin(se.e)}|${envText(se.f.env, sn)}`
@@ -331,7 +354,7 @@ function replayOne(rec) {
   const ev = compileTexts([M.printMin(e)])[0]
   if (!ev.eval) return { deterministic: true, failure: null, note: 'not accepted by the compiler any more' }
   const ref = M.compileRef(e)
-  const run = () => { const d = dataOf(rec.env); const a = outcomeOf(() => ref(d)); const b = ev.eval(d); return [sameOutcome(a, b), showOutcome(a), showOutcome(b)] }
+  const run = () => { const d = dataOf(rec.env); const a = outcomeOf(() => ref(d, {})); const b = ev.eval(d); return [sameOutcome(a, b), showOutcome(a), showOutcome(b)] }
   const r1 = run(); const r2 = run()
   return { deterministic: JSON.stringify(r1) === JSON.stringify(r2), failure: r1[0] ? null : `JavaScript gives ${r1[1]}, generated code gives ${r1[2]}` }
 }
